@@ -147,10 +147,37 @@ def sPop (c : Cfg) (s : SSt) (now k : Nat) : SSt × Option Item :=
         let s1 := { s with held := held', deq := s.deq + 1 }
         (serveAct s1 a (held'.any (·.flow == a.fid)), some x)
 
+/-- `purge_expired` in the specification: exactly the held items whose deadline has passed leave,
+    counted as dropped; the others stay held in acceptance order (so the order law of the next
+    pops is the one of `sPop` on the survivors) -/
+def sPurge (c : Cfg) (s : SSt) (now : Nat) : SSt × Nat :=
+  match c.kind with
+  | .deadline =>
+    let live := s.held.filter fun x => decide (now ≤ x.key)
+    ({ s with held := live, drp := s.drp + (s.held.length - live.length) }, s.held.length - live.length)
+  | _ => (s, 0)
+
+/-- what the read-only accessors must answer, as a function of the held list / backlogged flows -/
+def sQuery (c : Cfg) (s : SSt) (now f : Nat) : List Nat :=
+  match c.kind with
+  | .deadline =>
+    let live := (s.held.filter fun x => decide (now ≤ x.key)).length
+    [s.held.length - live, live]
+  | .fair => [(s.held.filter (·.flow == f)).length, s.act.length]
+  | .wfq =>
+    [(s.held.filter (·.flow == f)).length, s.act.length,
+     match s.act.find? (·.fid == f) with
+     | some a => a.weight
+     | none => c.weights.getD f 1]
+  | .adaptive => [if decide (c.thr ≤ s.held.length) then 1 else 0]
+  | _ => []
+
 def sStep (c : Cfg) (s : SSt) : Op → SSt × Out
   | .push it _ coin rdrop => ((sPush c s it coin rdrop).1, .pushed (sPush c s it coin rdrop).2)
   | .pop now k => ((sPop c s now k).1, .popped (sPop c s now k).2)
   | .peek now => (s, .peeked (sChoose c s now))
+  | .purge now => ((sPurge c s now).1, .purged (sPurge c s now).2)
+  | .query now f => (s, .info (sQuery c s now f))
 
 def sRun (c : Cfg) : SSt → List Op → List (Out × SSt)
   | _, [] => []
@@ -197,6 +224,10 @@ def judgeOne (c : Cfg) (s : SSt) (o : Op) (ob : PObs) : Option String :=
             some (pre ++ "expired-item-returned")
           else some (pre ++ "order")
     | .peeked e, .peeked g => if e == g then none else some (pre ++ "peek-differs-from-next-pop")
+    | .purged e, .purged g =>
+      if e == g then none
+      else if e < g then some (pre ++ "purge-removed-live-item") else some (pre ++ "purge-kept-expired-item")
+    | .info e, .info g => if e == g then none else some (pre ++ "accessor-differs-from-held")
     | _, _ => some (pre ++ "malformed-observation")
   match outViol with
   | some v => some v
